@@ -10,7 +10,7 @@ from ..model import Repo, ClassInfo, FunctionInfo, AnalysisError, walk_no_nested
 from ..core import Ob, Rule, Mutant, mutate_module, find_def, find_defs, replace_node, text_mutant, inconclusive
 from ..dataflow import Defs
 from ..cfg import cfg_of
-from ..astq import flatten, norm, return_exprs
+from ..astq import flatten, norm, return_exprs, is_stringy
 from ..ratfun import Normalizer, RF, Poly
 from .libcontract import _field_normalizer
 from .validate import controlling_tests, node_for
@@ -105,7 +105,8 @@ def rule_moments(repo: Repo) -> List[Ob]:
                 e = a
                 if isinstance(e, ast.Name) and len([v for v in defs.defs.get(e.id, []) if isinstance(v, ast.expr)]) == 1:
                     e = [v for v in defs.defs[e.id] if isinstance(v, ast.expr)][0]
-                if isinstance(e, ast.Call) and call_name(e) in ("sympify", "ssympify") and e.args and isinstance(e.args[0], ast.JoinedStr):
+                if isinstance(e, ast.Call) and call_name(e) in ("sympify", "ssympify") and e.args and (isinstance(e.args[0], ast.JoinedStr) or
+                                                                                                        (isinstance(e.args[0], (ast.Call, ast.BinOp)) and is_stringy(e.args[0]))):
                     from ..astq import template_of, Lit, Hole
                     text = ""
                     holes = {}
@@ -305,6 +306,8 @@ def rule_indicator(repo: Repo) -> List[Ob]:
     scopes = [(m, {}, None)] + helper_calls(repo, m, depth=1)
 
     def field_of(name: str, g: FunctionInfo, gdefs: Defs, binding) -> Optional[str]:
+        if "." in name:
+            return name.split(".", 1)[1] if name.split(".", 1)[1] in ("poly1", "poly2") and g is m else None
         e = resolve_alias(ast.Name(id=name, ctx=ast.Load()), gdefs)
         if isinstance(e, ast.Name) and g is not m and e.id in binding:
             e = resolve_alias(binding[e.id], mdefs)
@@ -325,7 +328,10 @@ def rule_indicator(repo: Repo) -> List[Ob]:
             v = gen.target.id
             if not any(isinstance(x, ast.BinOp) and isinstance(x.op, ast.Div) for x in ast.walk(cmpn.elt)):
                 continue
-            names = sorted({x.id for x in ast.walk(cmpn.elt) if isinstance(x, ast.Name)} - {v})
+            # the two quantities besides v: local names or fields of the atom (self.poly1 / self.poly2)
+            gselfn = g.params()[0] if g.params() else "self"
+            names = sorted(({x.id for x in ast.walk(cmpn.elt) if isinstance(x, ast.Name)} - {v, gselfn}) |
+                           {src(x) for x in ast.walk(cmpn.elt) if isinstance(x, ast.Attribute) and isinstance(x.value, ast.Name) and x.value.id == gselfn})
             if len(names) != 2:
                 continue
             try:
@@ -347,13 +353,25 @@ def rule_indicator(repo: Repo) -> List[Ob]:
             if (fx, fc) != ("poly1", "poly2"):
                 verdict = (False, f"factor `{src(cmpn.elt)}` interpolates in the constant instead of the variable (x is {fx}, c is {fc})", cmpn.lineno)
                 break
-            # filter: skip exactly v == c
+            # filter: skip exactly v == c  (either in this comprehension or in the one that built the iterated list)
             filt = None
-            if len(gen.ifs) == 1 and isinstance(gen.ifs[0], ast.Compare) and len(gen.ifs[0].ops) == 1 and isinstance(gen.ifs[0].ops[0], ast.NotEq):
+            if not gen.ifs and isinstance(gen.iter, ast.Name):
+                pre = [d for d in gdefs.defs.get(gen.iter.id, []) if isinstance(d, (ast.ListComp, ast.GeneratorExp, ast.SetComp))]
+                if len(pre) == 1 and len(pre[0].generators) == 1 and isinstance(pre[0].generators[0].target, ast.Name) and isinstance(pre[0].elt, ast.Name) \
+                        and pre[0].elt.id == pre[0].generators[0].target.id and len(pre[0].generators[0].ifs) == 1:
+                    pv = pre[0].generators[0].target.id
+                    pif = pre[0].generators[0].ifs[0]
+                    if isinstance(pif, ast.Compare) and len(pif.ops) == 1 and isinstance(pif.ops[0], ast.NotEq):
+                        sides = {src(pif.left), src(pif.comparators[0])}
+                        filt = True if sides == {pv, cst} else False if sides == {pv, x} else None
+            if filt is not None:
+                pass
+            elif len(gen.ifs) == 1 and isinstance(gen.ifs[0], ast.Compare) and len(gen.ifs[0].ops) == 1 and isinstance(gen.ifs[0].ops[0], ast.NotEq):
                 sides = {src(gen.ifs[0].left), src(gen.ifs[0].comparators[0])}
                 filt = True if sides == {v, cst} else False if sides == {v, x} else None
             elif not gen.ifs:
-                filt = False
+                # unfiltered product over the type's values divides by zero at v == c; over some other iterable: not readable
+                filt = False if "values" in src(gen.iter) else None
             if filt is False:
                 verdict = (False, "the product over the values of the type does not skip exactly v == c", cmpn.lineno)
                 break
